@@ -32,6 +32,11 @@ var c07Uses = []useSpec{
 	// pairs that differ only in case-sensitivity: two different keyspaces, or one that does not exist
 	{`"KS4"`, "KS4", true},
 	{`"KS1"`, "", false},
+	// what may follow the name: a terminator, comments
+	{"ks2;", "ks2", true},
+	{"ks1 /* switch */", "ks1", true},
+	{"ks4 -- back again", "ks4", true},
+	{"ks2 /* a */ ;", "ks2", true},
 }
 
 // C07 — requests run in the client's current keyspace, protocol version and compression.
